@@ -54,3 +54,23 @@ PROPS["C04"] = {
     "assumptions": ["message length < 2^61 bytes (the 64-bit bit counter wraps exactly as the standard's length field does)"],
     "not_proved": ["hmac_eq / pbkdf2_eq as Lean theorems about a transcription of crypto/hmac (T2): covered by correspondence only"],
 }
+
+PROPS["C11"] = {
+    "modules": ["Gmsm.Props.C11"],
+    "theorems": [
+        "Props.C11.len_pad", "Props.C11.unpad_pad", "Props.C11.encBlocks_all", "Props.C11.dec_enc_blocks",
+        "Props.C11.enc_eq_spec", "Props.C11.out_len", "Props.C11.dec_enc", "Props.C11.key_len",
+        "Props.C11.paddingNew_no_caller_write", "Props.C11.paddingOld_writes_spare_capacity",
+        "Proofs.Modes.cbc_inv", "Proofs.Modes.cfb_inv", "Proofs.Modes.ofb_inv", "Proofs.Modes.ecb_inv",
+    ],
+    "gen_items": ["sm4."],
+    "level": "proof",
+    "claim": "Lean 4 theorems for every key, 16-byte IV and plaintext: each helper's encryption is the SP 800-38A mode over SM4 of the PKCS#7-padded input, decryption of that ciphertext returns exactly the plaintext (chain inversion over any block function pair with D(E x)=x, instantiated by C05's SM4 inversion), output length is the next multiple of 16, un-pad inverts pad, and the repaired padding writes no pre-existing array (slice-with-capacity heap model; the pinned commit's append is refuted by a witness). The code is compared with the Lean spec on all lengths and with canaries behind input slices.",
+    "note": "Trusted: Lean kernel; Spec.Modes transcribes SP 800-38A; the helpers' loop structure (first-block special cases) is tied to the spec by differential runs, not translated; SM4 block equality with GM/T 0002 comes from C05.",
+    "trusted_base": [
+        "Spec.Modes (SP 800-38A ECB/CBC/CFB-128/OFB, PKCS#7) transcription",
+        "Model.SM4Modes.helper is tied to sm4.go:257-492 by the sm4mode correspondence: every plaintext length 0..200 (quick) / 0..1024 x3 (thorough) x 4 modes, padding-like tails, spare capacity with canaries, decrypt of arbitrary and of real ciphertexts, key lengths 0..40",
+    ],
+    "assumptions": ["the process-wide IV is set with SetIV to a 16-byte value and not changed concurrently (see C20)"],
+    "not_proved": [],
+}
